@@ -4,8 +4,11 @@ import (
 	"fmt"
 	"io"
 	"net"
+	"os"
+	"path/filepath"
 	"strconv"
 	"sync"
+	"syscall"
 
 	"github.com/pion/randutil"
 	"github.com/pion/transport/v4/stdnet"
@@ -59,7 +62,47 @@ func (r *scriptRand) Intn(n int) int {
 	return 0
 }
 
-var relaygenMu sync.Mutex // the port range on the loopback interface is a process-wide resource
+var relaygenMu sync.Mutex // the port range on the loopback interface is a process-wide resource ...
+
+// ... and a machine-wide one: another check that walks this family at the same time (or anything else that sits on one
+// of the ports) would be taken for the generator's doing.  One file lock for the whole walk, and the range is probed
+// before the first step.
+var (
+	relaygenLock    *os.File
+	relaygenProbe   sync.Once
+	errRelaygenBusy error
+)
+
+func relaygenMachineLock(min, max int) error {
+	relaygenProbe.Do(func() {
+		f, err := os.OpenFile(filepath.Join(os.TempDir(), "verif-relaygen.lock"), os.O_CREATE|os.O_RDWR, 0o666)
+		if err != nil {
+			errRelaygenBusy = err
+
+			return
+		}
+		if err := syscall.Flock(int(f.Fd()), syscall.LOCK_EX); err != nil {
+			errRelaygenBusy = err
+
+			return
+		}
+		relaygenLock = f // held until the process ends
+		for p := min; p <= max && max-min < 64; p++ {
+			for _, nw := range []string{"udp4", "udp6"} {
+				ip := map[string]string{"udp4": "127.0.0.1", "udp6": "::1"}[nw]
+				c, err := net.ListenPacket(nw, net.JoinHostPort(ip, strconv.Itoa(p)))
+				if err != nil {
+					errRelaygenBusy = fmt.Errorf("port %d of the generator's range is in use on this machine before the walk starts: %w", p, err)
+
+					return
+				}
+				_ = c.Close()
+			}
+		}
+	})
+
+	return errRelaygenBusy
+}
 
 func newRelaygenSys(meta Meta, _ int64, init any) (Sys, error) {
 	st, _ := init.(map[string]any)
@@ -90,6 +133,11 @@ func newRelaygenSys(meta Meta, _ int64, init any) (Sys, error) {
 		return nil, fmt.Errorf("unknown generator %q", s.kind)
 	}
 	relaygenMu.Lock()
+	if err := relaygenMachineLock(s.min, s.max); err != nil {
+		relaygenMu.Unlock()
+
+		return nil, fmt.Errorf("harness: %w", err)
+	}
 
 	return s, s.gen.Validate()
 }
